@@ -55,11 +55,17 @@ struct access
     template<class P, class DslPrec>
     static void inject(P& p, const ref::Grammar& g, int park, const std::vector<std::vector<int>>& slot_pattern, DslPrec dsl_prec)
     {
+        inject(p, g, park, slot_pattern, dsl_prec, [](int, int prec, int assoc) { return std::pair<int, int>(prec, assoc); });
+    }
+    //   dsl_term(t,prec,assoc) : (precedence, associativity) that a term object built with the public constructors reports for the declared values
+    template<class P, class DslPrec, class DslTerm>
+    static void inject(P& p, const ref::Grammar& g, int park, const std::vector<std::vector<int>>& slot_pattern, DslPrec dsl_prec, DslTerm dsl_term)
+    {
         using symbol = typename P::symbol;
         using rule_info = typename P::rule_info;
         constexpr size_t RC = P::rule_count;
         p.gi = typename P::grammar_info{};
-        for (int t = 0; t < g.nT; ++t) { p.gi.term_precedences[t] = g.tprec[t]; p.gi.term_associativities[t] = ctpg::associativity(int(g.tassoc[t])); }
+        for (int t = 0; t < g.nT; ++t) { std::pair<int, int> pa = dsl_term(t, g.tprec[t], int(g.tassoc[t])); p.gi.term_precedences[t] = pa.first; p.gi.term_associativities[t] = ctpg::associativity(pa.second); }
         p.gi.term_precedences[P::eof_idx] = 0; p.gi.term_associativities[P::eof_idx] = ctpg::associativity::no_assoc;
         p.gi.term_precedences[P::error_recovery_token_idx] = 0; p.gi.term_associativities[P::error_recovery_token_idx] = ctpg::associativity::no_assoc;
         std::vector<const ref::Rule*> by_slot(RC - 1, nullptr);
